@@ -9,7 +9,7 @@ from props import answers
 from props.c18 import lean_order_worlds
 
 THEOREMS = ["InfOCF.C19_constraint_iff", "InfOCF.C19_system_iff", "InfOCF.C19_two_sums_wrong", "InfOCF.C19_incremental",
-            "InfOCF.C19_fast_eq_alt", "InfOCF.C19_mask_eq_eval", "InfOCF.C19_pareto_box", "InfOCF.C19_zero_prior_is_crep"]
+            "InfOCF.C19_fast_eq_alt", "InfOCF.C17_front_loop_exact", "InfOCF.C19_mask_eq_eval", "InfOCF.C19_pareto_box", "InfOCF.C19_zero_prior_is_crep"]
 RULE = ("random prior rankings over 1-4 atoms (zero, random, sparse) x 1-4 revision conditionals (literal and compound, duplicates of "
         "antecedents, unfalsifiable and contradictory ones) x gamma modes (gamma+ fixed to zero / free) x fixed-value maps: c_revision's "
         "result is checked by the driver (non-negative integers, fixed values respected, revised ranking accepts every revision "
